@@ -497,7 +497,7 @@ pub fn replay_one<S: SubCheck>(s: &S, prop: &str, case: &Value, path: &str) -> i
     };
     crate::core::IS_DRIVER.with(|d| d.set(true));
     // MT cases are not deterministic: re-run several times.
-    let reps = if s.substrate().contains("MT") { 200 } else { 3 };
+    let reps = if s.substrate().contains("MT") || s.substrate().contains("real-threads") { 300 } else { 3 };
     for _ in 0..reps {
         match s.eval(&c) {
             Verdict::Pass { .. } => {}
